@@ -463,6 +463,48 @@ pub fn gen_withdraw(r: &mut Rng, w: &mut Wallet, cx: &Ctx) -> Option<Transaction
     (min_fee(&tx, cx.mult) <= fee).then_some(tx)
 }
 
+/// two (or three) withdrawal requests for one pool, each within the pool's recorded liquidity but together beyond it
+/// (possible when liquidity tokens came from a faucet or a fabricated state)
+pub fn gen_joint_overdraw(r: &mut Rng, w: &mut Wallet, cx: &Ctx) -> Option<Vec<Transaction>> {
+    let mut keys: Vec<PoolKey> = cx.known_pools.to_vec();
+    r.shuffle(&mut keys);
+    for key in keys {
+        let Some(pool) = cx.pools.get(&key) else { continue };
+        let d = key.liq_token_denom();
+        let easy = |c: &&WCoin| matches!(c.spec, CovSpec::StdNew(_) | CovSpec::AlwaysTrue);
+        let liqs: Vec<&WCoin> = cx.coins.iter().filter(easy).filter(|c| c.cdh.coin_data.denom == d && c.cdh.coin_data.value.0 > 0 && c.cdh.coin_data.value.0 <= pool.liqs).collect();
+        let mut mels: Vec<&WCoin> = cx.coins.iter().filter(easy).filter(|c| c.cdh.coin_data.denom == Denom::Mel && c.cdh.coin_data.value.0 <= 1 << 120).collect();
+        mels.sort_by_key(|c| c.cdh.coin_data.value.0);
+        let mut chosen: Vec<&WCoin> = vec![];
+        let mut sum = 0u128;
+        for c in liqs {
+            chosen.push(c);
+            sum = sum.saturating_add(c.cdh.coin_data.value.0);
+            if sum > pool.liqs {
+                break;
+            }
+        }
+        if sum <= pool.liqs || chosen.len() < 2 || chosen.len() > mels.len() {
+            continue;
+        }
+        let mut txs = vec![];
+        for (liq, mel) in chosen.iter().zip(mels.iter()) {
+            let inputs = vec![(*mel).clone(), (*liq).clone()];
+            let outs = vec![out(w.rand_addr(r, cx.height), liq.cdh.coin_data.value.0, d)];
+            let fee = mel.cdh.coin_data.value.0;
+            let tx = assemble(w, TxKind::LiqWithdraw, &inputs, outs, fee, key.to_bytes().to_vec());
+            if min_fee(&tx, cx.mult) > fee {
+                break;
+            }
+            txs.push(tx);
+        }
+        if txs.len() == chosen.len() {
+            return Some(txs);
+        }
+    }
+    None
+}
+
 pub fn gen_stake(r: &mut Rng, w: &mut Wallet, cx: &Ctx) -> Option<Transaction> {
     let inputs = pick_inputs(r, cx, 0, Some(Denom::Sym))?;
     let have = total(&inputs, Denom::Sym);
@@ -471,12 +513,12 @@ pub fn gen_stake(r: &mut Rng, w: &mut Wallet, cx: &Ctx) -> Option<Transaction> {
     let epoch = cx.height / STAKE_EPOCH;
     let k = r.below(w.keys.len() as u64) as usize;
     // all orderings of current / start / end
-    let e_start = match r.below(6) {
-        0 => epoch,
-        1 => epoch.saturating_sub(1),
+    let e_start = match r.below(8) {
+        0 | 1 => epoch,
+        2 => epoch.saturating_sub(1),
         _ => epoch + 1 + r.below(2),
     };
-    let e_post_end = match r.below(6) {
+    let e_post_end = match r.below(8) {
         0 => e_start,
         1 => e_start.saturating_sub(1),
         _ => e_start + 1 + r.below(2),
@@ -572,7 +614,7 @@ pub fn gen_doscmint(r: &mut Rng, w: &mut Wallet, cx: &Ctx, hist: &SmtMapping<Cas
 pub fn gen_faucet(r: &mut Rng, w: &mut Wallet, cx: &Ctx) -> Transaction {
     // off mainnet a faucet may mint any denomination — occasionally two coins of a pool's liquidity token, each
     // redeemable alone but not together (K-faucet-liq territory; exercises the withdrawal guard)
-    if r.chance(1, 12) && !cx.known_pools.is_empty() {
+    if r.chance(1, 8) && !cx.known_pools.is_empty() {
         let kp = *r.pick(cx.known_pools);
         if let Some(p) = cx.pools.get(&kp) {
             let each = (p.liqs / 2 + 1 + r.below(3) as u128).min(1 << 120);
